@@ -84,9 +84,10 @@ C10_KANI_THOROUGH = C10_SCRATCH_THOROUGH + C10_SCRATCH8 + [_h(f"c01::c10_h1_{p}_
 _C03_B = "BOUNDED: checker-supplied exact integer min-sum arithmetic, integer LLRs in [-7,7], fixed matrix, limit <= "
 C03_KANI = [_h("c03::c03_flooding_h1_one", timeout=800, mem_gb=5, bound="BOUNDED: checker-supplied exact min-sum arithmetic, integer LLRs in [-3,3], 2x3 matrix with unsorted adjacency lists, limit = 1"),
             _h("c03::c03_layered_h1", timeout=800, mem_gb=5, bound=_C03_B + "2 (2x3)"),
-            _h("c03::c03_layered_h1u", timeout=800, mem_gb=5, bound=_C03_B + "2 (2x3 with unsorted adjacency lists)")]
+            _h("c03::c03_layered_h1u", timeout=800, mem_gb=5, bound=_C03_B + "2 (2x3 with unsorted adjacency lists)"),
+            _h("c03::c03_layered_h2_two", timeout=800, mem_gb=5, bound="BOUNDED: checker-supplied exact min-sum arithmetic, integer LLRs in [-3,3], 3x4 matrix, limit = 2")]
 C03_KANI_THOROUGH = [_h(f"c03::{h}", timeout=7200, mem_gb=8, bound=_C03_B + "2")
-                     for h in ["c03_flooding_h1_one", "c03_flooding_h1", "c03_layered_h1", "c03_layered_h2", "c03_flooding_h1u_l1", "c03_layered_h1u",
+                     for h in ["c03_layered_h2_two", "c03_flooding_h1_one", "c03_flooding_h1", "c03_layered_h1", "c03_layered_h2", "c03_flooding_h1u_l1", "c03_layered_h1u",
                                "c03_flooding_h1_l1", "c03_layered_h2_l1"]]
 # c03_flooding_h2 (3x4 matrix, limit 2) did not finish in 50 min: not registered
 C17_KANI = [_h(f"c17::{n}", mem_gb=5, timeout=1500,
